@@ -3,97 +3,262 @@
 package simpledb
 
 import (
+	"fmt"
 	"math"
+	"os"
+	"path/filepath"
 	"strings"
+
+	rProto "github.com/thomasjungblut/go-sstables/recordio/proto"
+	dbproto "github.com/thomasjungblut/go-sstables/simpledb/proto"
 
 	"github.com/thomasjungblut/go-sstables/vrt"
 )
 
-// H_C11_DBFaults: a failing file-system call (create, write, rename, unlink, mkdir) at any position of a memstore flush or of a compaction is reported
+// vFault says which file-system call of the step under test fails.
+//   - under the engine: the k-th mutating call on the model file system (create, write, truncate, rename,
+//     unlink, rmdir, mkdir) fails without effect;
+//   - natively: either every write that would extend a file beyond limit bytes fails (RLIMIT_FSIZE: a short
+//     write followed by EFBIG, like a full disk), or the rename of the finished table into place fails
+//     (a non-empty directory sits at the target); none = dry run.
+type vFault struct {
+	k           int
+	native      bool
+	limit       int64 // native: -1 = no limit
+	blockRename bool  // native, flush only
+}
+
+func (f *vFault) none() bool { return f.native && f.limit < 0 && !f.blockRename }
+
+// H_C11_DBFaults: a failing file-system call at any position of a memstore flush or of a compaction is reported
 // by the step (the flusher / compactor then stops the process); it never reports success, the WAL file is not
 // removed and the table not installed (flush), no success flag is written and nothing is reflected (compaction);
 // and the directory the stopped process leaves behind recovers to the acknowledged state.
-// Symbolic engine only: the model file system injects the fault (no native counterpart).
+//
+// The engine decides this for every position k of the failing call. The native run (translator validation and
+// replay of counterexamples) repeats the scenario for every file size limit below the largest file the step
+// writes, and for a failing rename: the positions differ from the model's (the real encoders give other sizes),
+// so natively all of them are tried, as with the kill points of the crash harnesses.
 func H_C11_DBFaults() {
-	vrt.Assume(vrt.Symbolic())
 	vrt.RandPromoteBudget(0)
+	sc := &vFaultScenario{
+		v1:       vrt.Byte("v1"),
+		scenario: vrt.Choose("scenario", 2),
+	}
+	if sc.scenario == 1 {
+		sc.second = vrt.Choose("second", 2)
+		if sc.second == 0 {
+			sc.v2 = vrt.Byte("v2")
+		}
+	}
+	if vrt.Symbolic() {
+		sc.run(&vFault{k: vrt.Range("fault", 0, 34)})
+	} else {
+		largest := sc.run(&vFault{native: true, limit: -1})
+		for l := int64(0); l < largest; l++ {
+			sc.run(&vFault{native: true, limit: l})
+		}
+		if sc.scenario == 0 {
+			sc.run(&vFault{native: true, limit: -1, blockRename: true})
+		}
+	}
+	vrt.TraceBool("done", true)
+	vrt.Reach("dbfaults/end")
+}
+
+type vFaultScenario struct {
+	scenario, second int
+	v1, v2           byte
+}
+
+// run plays the scenario once on a fresh directory; it returns the size of the largest file the step wrote.
+func (sc *vFaultScenario) run(f *vFault) int64 {
 	h := vNewDBEnvU(vUniverse[:1])
 	defer h.fs.Cleanup()
 	key := vUniverse[0]
-	vrt.Assert(h.open(MemstoreSizeBytes(math.MaxUint64), WriteBufferSizeBytes(64), ReadBufferSizeBytes(64)) == nil, "dbfaults/open-no-error")
-	h.put(key, []byte{vrt.Byte("v1")})
-	scenario := vrt.Choose("scenario", 2)
-	k := vrt.Range("fault", 0, 34)
-	if scenario == 0 {
+	opts := []ExtraOption{MemstoreSizeBytes(math.MaxUint64), WriteBufferSizeBytes(64), ReadBufferSizeBytes(64)}
+	vrt.Assert(h.open(opts...) == nil, "dbfaults/open-no-error")
+	h.put(key, []byte{sc.v1})
+	var before map[string]bool
+	var largest int64
+	blocker := ""
+	arm := func() {
+		if !f.native {
+			h.fs.ArmOpFault(f.k)
+			return
+		}
+		_, before = vrt.LargestFileUnder(h.dir, nil)
+		if f.blockRename {
+			blocker = filepath.Join(h.dir, fmt.Sprintf(SSTablePattern, h.db.currentGeneration+1))
+			vrt.BlockPath(blocker)
+		}
+		if f.limit >= 0 {
+			vrt.LimitFileSize(f.limit)
+		}
+	}
+	disarm := func() bool {
+		if !f.native {
+			hit := h.fs.OpFaultHit()
+			h.fs.DisarmOpFault()
+			return hit
+		}
+		if f.limit >= 0 {
+			vrt.UnlimitFileSize()
+		}
+		if blocker != "" {
+			vrt.UnblockPath(blocker)
+		}
+		largest, _ = vrt.LargestFileUnder(h.dir, before)
+		return !f.none()
+	}
+	if sc.scenario == 0 {
 		// ---- flush ----
-		h.db.rwLock.Lock()
-		err := h.db.rotateWalAndFlushMemstore()
-		h.db.rwLock.Unlock()
-		vrt.Assert(err == nil && h.pending != nil, "dbfaults/rotation-no-error")
-		walPath := h.pending.walPath
-		before := h.tables()
-		a := *h.pending
-		h.pending = nil
-		h.fs.ArmOpFault(k)
+		a := h.rotateAndTakeAction()
+		walPath := a.walPath
+		tablesBefore := h.tables()
+		arm()
 		var ferr error
 		h.inBackground = true
 		vrt.RunAs(1, func() { ferr = executeFlush(h.db, a) })
 		h.inBackground = false
-		hit := h.fs.OpFaultHit()
-		h.fs.DisarmOpFault()
-		if hit {
-			vrt.Reach("dbfaults/flush-write-failed")
-			vrt.Assert(ferr != nil, "dbfaults/flush-reports-the-write-failure")
-			vrt.Assert(h.tables() == before, "dbfaults/failed-flush-installs-no-table")
-			vrt.Assert(h.fs.Exists(walPath), "dbfaults/failed-flush-keeps-the-wal-file")
-		} else {
+		hit := disarm()
+		switch {
+		case !hit:
 			vrt.Assert(ferr == nil, "dbfaults/flush-without-fault-succeeds")
+		case ferr != nil:
+			vrt.Reach("dbfaults/flush-write-failed")
+			vrt.Assert(h.tables() == tablesBefore, "dbfaults/failed-flush-installs-no-table")
+			vrt.Assert(h.fs.Exists(walPath), "dbfaults/failed-flush-keeps-the-wal-file")
+		default:
+			// the step reports success although a call failed: acceptable only if no record is missing or
+			// misrepresented (the one case on the unchanged tree: the bloom filter file, whose write errors
+			// the bloom filter library itself drops; a table without a readable filter is read without one)
+			vrt.Reach("dbfaults/fault-absorbed-without-effect-on-records")
+			h.checkReads("dbfaults/success-reported-after-a-fault-means-nothing-is-missing")
 		}
 	} else {
 		// ---- compaction ----
 		h.forceRotation()
-		if vrt.Choose("second", 2) == 0 {
-			h.put(key, []byte{vrt.Byte("v2")})
+		if sc.second == 0 {
+			h.put(key, []byte{sc.v2})
 		} else {
 			h.del(key)
 		}
 		h.forceRotation()
 		h.db.compactedMaxSizeBytes = math.MaxUint64
 		h.db.compactionFileThreshold = 1
-		before := h.tables()
-		h.fs.ArmOpFault(k)
+		tablesBefore := h.tables()
+		arm()
 		meta, cerr := executeCompaction(h.db)
-		hit := h.fs.OpFaultHit()
-		h.fs.DisarmOpFault()
-		if hit {
+		hit := disarm()
+		if !hit {
+			vrt.Assert(cerr == nil && meta != nil, "dbfaults/compaction-without-fault-succeeds")
+		}
+		if cerr != nil {
 			vrt.Reach("dbfaults/compaction-write-failed")
-			vrt.Assert(cerr != nil, "dbfaults/compaction-reports-the-write-failure")
 			vrt.Assert(meta == nil, "dbfaults/failed-compaction-returns-nothing-to-reflect")
 			flagged := false
 			for _, name := range h.fs.List(h.dir) {
-				if strings.HasPrefix(name, SSTableCompactionPathPrefix) && h.fs.Exists(h.dir+"/"+name+"/"+CompactionFinishedSuccessfulFileName) &&
-					h.fs.FileSize(h.dir+"/"+name+"/"+CompactionFinishedSuccessfulFileName) > 8 {
+				if strings.HasPrefix(name, SSTableCompactionPathPrefix) && vFlagReadable(h.dir+"/"+name+"/"+CompactionFinishedSuccessfulFileName) {
 					flagged = true
 				}
 			}
 			vrt.Assert(!flagged, "dbfaults/failed-compaction-writes-no-success-flag")
-			vrt.Assert(h.tables() == before, "dbfaults/failed-compaction-is-not-installed")
-		} else {
-			vrt.Assert(cerr == nil && meta != nil, "dbfaults/compaction-without-fault-succeeds")
+			vrt.Assert(h.tables() == tablesBefore, "dbfaults/failed-compaction-is-not-installed")
+		} else if meta != nil {
+			if hit {
+				vrt.Reach("dbfaults/fault-absorbed-without-effect-on-records")
+			}
+			// success reported (with or without a fault): what gets installed must hold every record
 			vrt.Assert(h.db.sstableManager.reflectCompactionResult(meta) == nil, "dbfaults/reflect-no-error")
+			h.checkReads("dbfaults/success-reported-after-a-fault-means-nothing-is-missing")
 		}
 	}
 	// the process stops on such an error: what it leaves behind must recover to the acknowledged state
-	img := h.fs.CrashImage(len(h.fs.Journal), nil)
-	img.Activate()
-	h2 := &vDB{fs: img, dir: h.dir, ref: h.ref}
-	oerr := h2.open(MemstoreSizeBytes(math.MaxUint64), WriteBufferSizeBytes(64), ReadBufferSizeBytes(64))
+	img, idir := h.stopImage()
+	defer img.Cleanup()
+	h2 := &vDB{fs: img, dir: idir, ref: h.ref}
+	oerr := h2.open(opts...)
 	if oerr != nil {
 		vrt.Note("open after stop: " + oerr.Error())
 	}
 	vrt.Assert(oerr == nil, "dbfaults/reopen-after-the-stop-succeeds")
 	if oerr == nil {
 		h2.checkReads("dbfaults/reads-after-recovery")
+		if !vrt.Symbolic() {
+			h2.close()
+		}
 	}
-	vrt.Reach("dbfaults/end")
+	h.abandon()
+	return largest
+}
+
+// abandon: native runs repeat the scenario many times in one process; the files of the "stopped" database are
+// released without running Close (which would flush and change the directory, and wait for the flusher).
+func (h *vDB) abandon() {
+	if vrt.Symbolic() {
+		return
+	}
+	h.db.wal.Close()
+	h.db.sstableManager.currentSSTable().Close()
+}
+
+// vFlagReadable: a success flag the recovery would accept (it reads it the same way). A flag file that is empty
+// or cut short by the failing write does not count: the recovery discards such a folder.
+func vFlagReadable(path string) bool {
+	if _, err := os.Stat(path); err != nil {
+		return false
+	}
+	reader, err := rProto.NewReader(rProto.ReaderPath(path))
+	if err != nil {
+		return false
+	}
+	defer reader.Close()
+	if reader.Open() != nil {
+		return false
+	}
+	_, err = reader.ReadNext(&dbproto.CompactionMetadata{})
+	return err == nil
+}
+
+// stopImage: the directory as the stopped process leaves it (no Close). Under the engine the journal replayed
+// into a fresh model file system; natively a copy of the directory tree.
+func (h *vDB) stopImage() (*vrt.FS, string) {
+	if vrt.Symbolic() {
+		img := h.fs.CrashImage(len(h.fs.Journal), nil)
+		img.Activate()
+		return img, h.dir
+	}
+	img := h.fs.CopyTree()
+	return img, filepath.Join(img.Root, strings.TrimPrefix(h.dir, h.fs.Root))
+}
+
+// rotateAndTakeAction rotates the memstore and returns the action meant for the flusher without letting the
+// flusher have it, so that the harness can run executeFlush itself (a failing flush in the real flusher goroutine
+// would end the test process, as it ends the real one). Natively the flusher goroutine is parked on a channel
+// nobody sends to any more and the harness receives the hand-off.
+func (h *vDB) rotateAndTakeAction() memStoreFlushAction {
+	if vrt.Symbolic() {
+		h.db.rwLock.Lock()
+		err := h.db.rotateWalAndFlushMemstore()
+		h.db.rwLock.Unlock()
+		vrt.Assert(err == nil && h.pending != nil, "dbfaults/rotation-no-error")
+		a := *h.pending
+		h.pending = nil
+		return a
+	}
+	vrt.WaitGoroutineIdle("simpledb.flushMemstoreContinuously")
+	h.db.rwLock.Lock()
+	h.db.storeFlushChannel = make(chan memStoreFlushAction)
+	h.db.rwLock.Unlock()
+	done := make(chan error)
+	go func() {
+		h.db.rwLock.Lock()
+		err := h.db.rotateWalAndFlushMemstore()
+		h.db.rwLock.Unlock()
+		done <- err
+	}()
+	a := <-h.db.storeFlushChannel
+	vrt.Assert(<-done == nil, "dbfaults/rotation-no-error")
+	return a
 }
